@@ -310,6 +310,16 @@ func runVec(rep *Report, v *Vec, rng *rand.Rand, fresh map[string]bool) {
 	}
 	created := time.Date(2023, 4, 5, 6, 7, 8, rng.Intn(1e9), time.UTC)
 	e := &eventlogger.Event{Type: eventlogger.EventType(typ), CreatedAt: created, Payload: payload, Formatted: map[string][]byte{}}
+	if rng.Intn(2) == 0 {
+		// the event has been through another cloudevents formatter of the same format already (another pipeline of the
+		// type, or a formatter earlier in this one): what that one stored has nothing to say about this one's document
+		other := &cloudevents.FormatterFilter{Format: ff.Format}
+		other.Source, _ = url.Parse("https://elsewhere.example/other")
+		if other.Format == cloudevents.Format("xml") {
+			other.Format = cloudevents.FormatJSON
+		}
+		other.Process(context.Background(), e)
+	}
 	// the outcome does not depend on the state of the context: a document whose type is listed is signed or refused,
 	// never forwarded unsigned because the request behind it has been given up
 	pctx := context.Background()
